@@ -35,7 +35,7 @@ def run(ctx):
 
 def _direct(ctx, current, mon):
     import cij.core.phonon_contribution.nonshear as ns
-    ncases = ctx.pick(60, 6000)
+    ncases = ctx.pick(60, 15000)
     for i in range(ncases):
         case_id = f"case{i}"
         if not ctx.mine(i, case_id):
@@ -76,7 +76,7 @@ def _direct(ctx, current, mon):
 def _through_tasks(ctx, current):
     """All 21 keys through the real task list: shear adiabatic == isothermal element-wise, while the
     non-shear dependencies do differ between the two stores (otherwise trivial)."""
-    n = ctx.pick(8, 400)
+    n = ctx.pick(8, 1500)
     classes = ["constant", "varying", "equal", "pairwise-equal"]
     for i in range(n):
         case_id = f"tasks{i}"
